@@ -17,6 +17,7 @@ FUNCS_PER_MODULE = 200
 
 PRELUDE = '''\
 import functools
+import inspect
 import types
 import contextlib
 
